@@ -4,4 +4,5 @@ INVARIANT C10_Rules
 INVARIANT C10_Start
 INVARIANT C10_Tokens
 INVARIANT C10_Code
+INVARIANT C10_Output
 CHECK_DEADLOCK FALSE
